@@ -88,11 +88,16 @@ def main():
             sh(["git", "-C", "/repo", "checkout", "--", "."])
     d = os.path.join(VERIF, "seeded", sid)
     os.makedirs(d, exist_ok=True)
-    shutil.copy(patch, os.path.join(d, "patch.diff"))
-    shutil.copy(demo, os.path.join(d, "demo_test.go"))
+    for src, name in ((patch, "patch.diff"), (demo, "demo_test.go")):
+        if os.path.abspath(src) != os.path.join(d, name):
+            shutil.copy(src, os.path.join(d, name))
     notes = os.path.splitext(patch)[0].replace(".patch", "") + ".notes.md"
     if os.path.exists(notes):
         meta["needs_to_manifest"] = open(notes).read()[:3000]
+    elif os.path.exists(os.path.join(d, "meta.json")):
+        old = json.load(open(os.path.join(d, "meta.json")))
+        if "needs_to_manifest" in old:
+            meta["needs_to_manifest"] = old["needs_to_manifest"]
     json.dump(meta, open(os.path.join(d, "meta.json"), "w"), indent=1)
     print("caught by:", [c for c, v in meta["checks"].items() if v["caught"]] or "NOTHING")
 
